@@ -148,15 +148,19 @@ const overlongUnfinishedURLPrefix = "UnfinishedPrefixTooLong"
 // value into classes such that the prefix validators cannot tell two prefixes of one class
 // apart, whatever text the called template appends to them.
 func urlPrefixClass(sc sanitizationContext, prefix string) string {
-	// A bare "&" at the end, as in `<a href="/foo?a=b&{{template "params" .}}">`, is not
-	// counted as the start of a character reference here.
-	if urlPrefixValidators[sc](strings.TrimSuffix(prefix, "&")) == nil {
+	if urlPrefixValidators[sc](prefix) == nil {
 		// The scheme, if any, is complete and safe, and nothing at the end of the prefix
 		// waits for more text.
 		if strings.ContainsAny(html.UnescapeString(prefix), "#?") {
 			return "Query"
 		}
 		return "Prefix"
+	}
+	// In the query or fragment, where "&" separates parameters, a bare "&" at the end as in
+	// `<a href="/foo?a=b&{{template "params" .}}">` is not counted as the start of a
+	// character reference here. What follows is percent-encoded whatever it completes.
+	if p := strings.TrimSuffix(prefix, "&"); p != prefix && urlPrefixValidators[sc](p) == nil && strings.ContainsAny(html.UnescapeString(p), "#?") {
+		return "Query"
 	}
 	if urlPrefixStaysInvalid(sc, prefix) {
 		return "UnsafePrefix"
